@@ -977,8 +977,12 @@ func (c *Cursor) String() string {
 		var ks string
 		if c.path[i].linkIndex < len(c.path[i].node.Key) {
 			ks = fmt.Sprintf("%v", c.path[i].node.Key[c.path[i].linkIndex])
-		} else {
+		} else if c.path[i].linkIndex > 0 {
 			ks = fmt.Sprintf(">%v", c.path[i].node.Key[c.path[i].linkIndex-1])
+		} else {
+			// a node without keys (the root of an empty tree, or a
+			// pass-through node)
+			ks = "-"
 		}
 		if i > 0 {
 			res += " "
